@@ -18,7 +18,7 @@ CHECKS = {
    note='Ranges are read through the verif-hooks accessors. Margin eps=1e-7 relative on continuous bounds, none on integer bounds. Outside: propagation chains longer than the family has.',
    ref='DESIGN §3 C07'),
  'C05': dict(cat=TV, tech='real solver entry points run on an enumerated family of small LP/MILP models; z3 (exact rational LRA/LIA) decides optimality for all points, infeasibility, and existence of an improving recession direction',
-   text='For every L(n,m) model and every built-in entry point that accepts it, z3 is the exact oracle: a returned optimum is optimal over ALL feasible points (unsat query), an infeasible verdict means the model is unsatisfiable, an unbounded verdict needs a feasible point and an improving ray; simplex-based solvers must answer with Ok/Infeasible/Unbounded only (a solver that does not return within 3 s is reported as a hang).',
+   text='For every L(n,m) model and every built-in entry point that accepts it, z3 is the exact oracle: a returned optimum is optimal over ALL feasible points (unsat query), an infeasible verdict means the model is unsatisfiable, an unbounded verdict needs a feasible point and an improving ray; simplex-based solvers must answer with Ok/Infeasible/Unbounded only (a solver that does not return within 5 s is reported as a hang).',
    note='The solver run itself is concrete (third-party numerical code cannot be executed symbolically); the quantified part is the oracle query. Tolerance 1e-6 relative (1e-4 for Clarabel). Known findings about microlp 0.5 / Clarabel status mapping are listed in known_findings.txt.',
    ref='DESIGN §3 C05'),
  'C13': dict(cat=TV, tech='SMT translation validation (z3, exists/forall LRA) of the real standard-form conversion + Kani proofs of the row-normalisation kernels',
